@@ -267,6 +267,11 @@ def run_case(ctx, rep, spec, recipe, kept, serial, model, start=None, species=No
         rep.agree(); rep.count("wf-certificate-passes")
     elif cert != "names":
         rep.tie(f"chef's output does not pass the Lean well-formedness certificate ({cert})", case)
+    rc = tastelib.rows_model_check(out, leanio)
+    if rc is not None and not rc[1]:
+        rep.agree(); rep.count("rows-are-the-model's-true-extrema", rc[0])
+    elif rc is not None:
+        rep.tie(f"min/max rows of the plotfile chef wrote differ from the extrema the Lean model computes from the written bytes: {rc[1][0]} (C11.extrema_are_true)", case)
     why = writers.output_header_matches_rewrite(path, out, None, Q["fields"], "chef", leanio, rep)
     if why:
         rep.tie(f"header chef derives from its input: {why} (C11.output_header_keeps_mesh / output_header_read_back)", case)
